@@ -881,6 +881,8 @@ def _accept_slice_impl(slice_expr, input_array, reduced_axes, keepdims, make_res
             return None
 
     result = make_result(sliced_input, input_index)
+    if result is None:
+        return None
 
     # Re-apply what stayed on the output: the original index on kept reduced
     # axes, plus [0] extraction where integers became size-1 slices.
@@ -1069,6 +1071,18 @@ class PartialReduce(ArrayExpr):
         reduced_axes = set(self.split_every.keys())
 
         def make_result(sliced_input, input_index):
+            # The slice lands directly above our input, whose blocks are the
+            # intermediate values of the tree reduction and need not be arrays
+            # (mean/var/arg* carry dicts).  Only push when the input takes the
+            # slice further down itself; a slice stranded there would index
+            # those blocks.
+            from dask_array.slicing import SliceSlicesIntegers
+
+            pushed = sliced_input.expr
+            if isinstance(pushed, SliceSlicesIntegers) and pushed.array._name == self.array._name:
+                accept = getattr(self.array, "_accept_slice", None)
+                if accept is None or accept(pushed) is None:
+                    return None
             return PartialReduce(
                 sliced_input.expr,
                 self.func,
